@@ -286,12 +286,26 @@ def pick(rng, table):
             return k
         x -= w
 
+# two cells, "b" places "a" reflected and rotated by 90 degrees (raw side: angle Some(90.0); message side: rotation 90)
+FIXED_CASES = [
+    {"op": "raw", "kind": "fixed", "import_layers": "none",
+     "lib": {"name": "l", "units": "Nano", "layers": [],
+             "cells": [{"name": "a", "layout": {"name": "a", "insts": [], "elems": [], "annots": []}, "abs": None},
+                       {"name": "b", "layout": {"name": "b", "insts": [{"name": "i", "cell": 0, "loc": [3, 4], "reflect": True, "angle": f2b(90.0)}],
+                                                "elems": [], "annots": []}, "abs": None}]}},
+    {"op": "proto", "kind": "fixed", "layers": None,
+     "plib": {"domain": "l", "units": 1, "author": False,
+              "cells": [{"name": "a", "circuit": False, "abs": None, "layout": {"name": "a", "shapes": [], "insts": [], "annots": []}},
+                        {"name": "b", "circuit": False, "abs": None,
+                         "layout": {"name": "b", "shapes": [], "insts": [{"name": "i", "cell": {"local": "a"}, "origin": [3, 4], "reflect": True, "rot": 90}], "annots": []}}]}},
+]
+
 def gen_cases(chk):
     rng = chk.rng
     quick = chk.tier == "quick"
     nraw = 900 if quick else 20000
     npro = 700 if quick else 15000
-    cases = []
+    cases = list(FIXED_CASES)          # minimal regression cases, always run first
     raw_kinds = RAW_KINDS if raw_deporder_checked() else [k for k in RAW_KINDS if k[0] != "cyclic"]   # without the pending set a cycle overflows the stack (C17)
     for _ in range(nraw):
         cases.append(gen_raw_case(rng, pick(rng, raw_kinds)))
